@@ -10,6 +10,8 @@ import (
 
 	"github.com/jsightapi/jsight-schema-core/fs"
 
+	"github.com/jsightapi/jsight-api-core/core"
+	"github.com/jsightapi/jsight-api-core/directive"
 	"github.com/jsightapi/jsight-api-core/kit"
 	"github.com/jsightapi/jsight-api-core/scanner"
 )
@@ -28,6 +30,19 @@ func main() {
 	case "str":
 		j, je := kit.NewJApiFromFile(fs.NewFile("root.jst", os.Args[2]))
 		report(j, je)
+	case "ban":
+		// probe ban <keyword> '<content>': build with that directive kind banned
+		de, err := directive.NewDirectiveType(os.Args[2])
+		if err != nil {
+			fmt.Println("unknown directive", os.Args[2])
+			os.Exit(2)
+		}
+		c := core.NewJApiCore(fs.NewFile("root.jst", os.Args[3]), core.WithBannedDirectives(de))
+		if je := c.BuildCatalog(); je != nil {
+			fmt.Printf("ERROR: %s (index %d)\n", je.Error(), je.Index)
+			os.Exit(1)
+		}
+		fmt.Println("OK")
 	case "scan":
 		s := scanner.NewJApiScanner(fs.NewFile("root.jst", os.Args[2]))
 		for {
